@@ -1,7 +1,216 @@
 import IbModel.Util.Wire
-/-! Driver handlers for C09 (request kinds served for that property). -/
-namespace IB.D09
+import IbModel.Model.Io
+/-!
+Driver handlers for C09.
 
-def handlers : List (String × (List String → String)) := []
+* `SHARDS <jsonl|csv|csvh> <total> <per>` / `SHARDS parquet <g1,g2,…|-> <per>`
+    ↦ `T<total> R<a-b,…|-> P<sizes|-> S<n> Q<n> V<n>`
+  (ranges of `build_*_shards`, partition sizes of `VecOps::split`, length of `clone_any`
+  (= `collect_seq`), of the parallel concatenation (= `collect_par`) and of `read_*_vec`).
+* `PARWRITE <jsonl|csv|csvh> <n> <shards|none> auto=<a> via=<fn|pc>`
+    ↦ `OK B<i:s-e,…|-> W<H|id,…|->` | `PANIC`
+* `JSONLRD <hex bytes|-> <per>` (records are JSON integers)
+    ↦ `T<total> R<…> SEQ <OK ids|ERR> PAR <OK a,b|c | PANIC> VEC <OK ids|ERR>`
+* `SPLITR <len> <parts>` ↦ `split_ranges(len, parts)` as `idx:start-end,…`
+* `GLOB <path:count,…>` ↦ `F<file indices in read order> N<total records>`
+-/
+namespace IB.D09
+open IB.Wire IB.Io
+
+def joinWith (sep : String) (xs : List String) : String :=
+  if xs.isEmpty then "-" else sep.intercalate xs
+
+def showRanges (rs : List (Nat × Nat)) : String :=
+  joinWith "," (rs.map fun r => s!"{r.1}-{r.2}")
+
+def showNats (xs : List Nat) : String := joinWith "," (xs.map toString)
+
+def showBounds (bs : List (Nat × Nat × Nat)) : String :=
+  joinWith "," (bs.map fun b => s!"{b.1}:{b.2.1}-{b.2.2}")
+
+def nats? (s : String) : Option (List Nat) :=
+  if s == "-" then some [] else (s.splitOn ",").mapM parseNat?
+
+/-- lines carry record ids: `ser = id`, `de = some`, never blank -/
+def idDe (n : Nat) : Option Nat := some n
+
+def shardsLines (hdr : Bool) (total per : Nat) : String :=
+  -- the file: optional header (`none`) followed by `total` rows
+  let rows : List (Option Nat) := (List.range total).map some
+  let file := csvWrite hdr none (fun r => r) rows
+  let body := csvBody hdr file
+  let de : Option Nat → Option Nat := fun l => l
+  let blank : Option Nat → Bool := fun _ => false
+  let ranges := mkRanges body.length per
+  let parts := match splitView blank de body per with
+    | some ps => showNats (ps.map List.length)
+    | none => "NONE"
+  let s := match runSeq blank de body with
+    | .ok v => toString v.length
+    | _ => "ERR"
+  let q := match runPar blank de body per with
+    | .ok v => toString v.length
+    | .err => "ERR"
+    | .panic => "PANIC"
+  let v := match csvRead hdr de file with
+    | some v => toString v.length
+    | none => "ERR"
+  s!"T{body.length} R{showRanges ranges} P{parts} S{s} Q{q} V{v}"
+
+def shardsParquet (sizes : List Nat) (per : Nat) : String :=
+  -- rows are numbered consecutively across the groups
+  let groups : List (List Nat) :=
+    (sizes.foldl (fun (acc : Nat × List (List Nat)) sz =>
+      (acc.1 + sz, acc.2 ++ [List.range' acc.1 sz])) (0, [])).2
+  let ranges := mkGroupRanges groups.length per
+  let parts := parquetSplit groups per
+  let total := (sizes.foldl (· + ·) 0)
+  let s := parquetSeq groups per
+  let q := parts.flatten
+  let v := parquetAll groups
+  let okIds (l : List Nat) : String :=
+    if l == List.range l.length then toString l.length else "X"
+  s!"T{total} R{showRanges ranges} P{showNats (parts.map List.length)} S{okIds s} Q{okIds q} V{okIds v}"
+
+def handleShards : List String → String
+  | ["parquet", gs, per] =>
+    match nats? gs, parseNat? per with
+    | some gs, some per => shardsParquet gs per
+    | _, _ => "BAD-OP"
+  | [fmt, total, per] =>
+    match parseNat? total, parseNat? per with
+    | some total, some per =>
+      if fmt == "jsonl" || fmt == "csv" then shardsLines false total per
+      else if fmt == "csvh" then shardsLines true total per
+      else "BAD-OP"
+    | _, _ => "BAD-OP"
+  | _ => "BAD-OP"
+
+def shards? (s : String) : Option (Option Nat) :=
+  if s == "none" then some none else (parseNat? s).map some
+
+def showCell : Option Nat → String
+  | none => "H"
+  | some i => toString i
+
+def handleParWrite : List String → String
+  | [fmt, n, sh, auto, via] =>
+    match parseNat? n, shards? sh, kv? "auto" [auto], kv? "via" [via] with
+    | some n, some sh, some auto, some via =>
+      match parseNat? auto with
+      | none => "BAD-OP"
+      | some auto =>
+        let data := List.range n
+        if fmt == "jsonl" && (via == "fn" || via == "pc") then
+          -- PCollection::write_jsonl_par = collect_seq (identity on an in-memory source) + the free fn
+          match parWriteJsonl data sh auto with
+          | none => "PANIC"
+          | some w =>
+            let b := if n = 0 then [] else jsonlShardBounds n (shardCount sh auto n)
+            s!"OK B{showBounds b} W{showNats w}"
+        else if (fmt == "csv" || fmt == "csvh") && via == "fn" then
+          let hdr := fmt == "csvh"
+          match parWriteCsv hdr (none : Option Nat) some data sh auto with
+          | none => "PANIC"
+          | some w =>
+            let b := if n = 0 then [] else splitRanges n (shardCount sh auto n)
+            s!"OK B{showBounds b} W{joinWith "," (w.map showCell)}"
+        else if (fmt == "csv" || fmt == "csvh") && via == "pc" then
+          -- PCollection::write_csv_par = collect_par(shards) + write_csv_vec
+          let hdr := fmt == "csvh"
+          let w := csvWrite hdr (none : Option Nat) some (collectParVec data (sh.getD auto))
+          s!"OK B- W{joinWith "," (w.map showCell)}"
+        else "BAD-OP"
+    | _, _, _, _ => "BAD-OP"
+  | _ => "BAD-OP"
+
+/-! ### JSONL byte level, records = JSON integers -/
+
+def jsonWs (c : Char) : Bool := c == ' ' || c == '\t' || c == '\n' || c == '\r'
+
+def trimJsonWs (l : List Char) : List Char :=
+  ((l.dropWhile jsonWs).reverse.dropWhile jsonWs).reverse
+
+/-- canonical JSON integer in the `i64` range (no leading zeros, no `-0`, no `+`) -/
+def deInt (l : List Char) : Option Int :=
+  let t := trimJsonWs l
+  let (neg, ds) := match t with
+    | '-' :: r => (true, r)
+    | r => (false, r)
+  if ds.isEmpty || !ds.all Char.isDigit then none
+  else if ds.length > 1 && ds.head? == some '0' then none
+  else
+    let n := ds.foldl (fun acc c => acc * 10 + (c.toNat - '0'.toNat)) 0
+    if neg && n == 0 then none
+    else
+      let v : Int := if neg then - (Int.ofNat n) else Int.ofNat n
+      if v < -9223372036854775808 || v > 9223372036854775807 then none else some v
+
+def showInts (xs : List Int) : String := joinWith "," (xs.map toString)
+
+def hexToChars? (h : String) : Option (List Char) :=
+  if h == "-" then some []
+  else do
+    let bs ← hexToBytes? h.toList
+    let ba := ByteArray.mk (bs.map UInt8.ofNat).toArray
+    let s ← String.fromUTF8? ba
+    pure s.toList
+
+def handleJsonlRd : List String → String
+  | [hex, per] =>
+    match hexToChars? hex, parseNat? per with
+    | some bytes, some per =>
+      let ls := splitLines bytes
+      let ranges := mkRanges ls.length per
+      let seq := match runSeq blankLine deInt ls with
+        | .ok v => "OK " ++ showInts v
+        | _ => "ERR"
+      let par := match splitView blankLine deInt ls per with
+        | some parts => "OK " ++ joinWith "|" (parts.map showInts)
+        | none =>
+          match runPar blankLine deInt ls per with
+          | .ok v => "FALLBACK " ++ showInts v
+          | _ => "PANIC"
+      let vec := match readAll blankLine deInt ls with
+        | some v => "OK " ++ showInts v
+        | none => "ERR"
+      s!"T{ls.length} R{showRanges ranges} SEQ {seq} PAR {par} VEC {vec}"
+    | _, _ => "BAD-OP"
+  | _ => "BAD-OP"
+
+/-! ### glob order -/
+
+def pathOf (s : String) : PathC :=
+  (s.splitOn "/").map fun c => c.toUTF8.toList.map (·.toNat)
+
+def fileSpec? (idx : Nat) (s : String) : Option (PathC × List Nat) :=
+  match s.splitOn ":" with
+  | [p, c] => (parseNat? c).map fun c => (pathOf p, List.replicate c idx)
+  | _ => none
+
+def handleGlob : List String → String
+  | [spec] =>
+    let items := if spec == "-" then [] else spec.splitOn ","
+    match (items.zipIdx.mapM fun (s, i) => fileSpec? i s) with
+    | none => "BAD-OP"
+    | some files =>
+      -- every file lists its own index once per record; an empty file contributes nothing
+      match globRead (readAll (fun _ => false) idDe) files with
+      | none => "ERR"
+      | some ids =>
+        let order := (sortPaths (files.zipIdx.map fun (f, i) => (f.1, i))).map (·.2)
+        s!"F{showNats order} N{ids.length} I{showNats ids}"
+  | _ => "BAD-OP"
+
+def handleSplitR : List String → String
+  | [len, parts] =>
+    match parseNat? len, parseNat? parts with
+    | some len, some parts => showBounds (splitRanges len parts)
+    | _, _ => "BAD-OP"
+  | _ => "BAD-OP"
+
+def handlers : List (String × (List String → String)) :=
+  [("SHARDS", handleShards), ("SPLITR", handleSplitR), ("PARWRITE", handleParWrite), ("JSONLRD", handleJsonlRd),
+   ("GLOB", handleGlob)]
 
 end IB.D09
